@@ -1220,7 +1220,7 @@ func (vc *FuncVC) execReturn(x *ssa.Return) {
 // escapePoints lists the instructions at which the address held by an Alloc (or
 // an address derived from it) may become known to other code: passed to a call,
 // stored as a value, boxed, captured, returned, merged by a phi.
-func (vc *FuncVC) escapePoints(a *ssa.Alloc) []ssa.Instruction {
+func (vc *FuncVC) escapePoints(a ssa.Value) []ssa.Instruction {
 	if ep, ok := vc.escapes[a]; ok {
 		return ep
 	}
@@ -1255,6 +1255,15 @@ func (vc *FuncVC) escapePoints(a *ssa.Alloc) []ssa.Instruction {
 				if u.Val == v {
 					out = append(out, r)
 				}
+			case *ssa.Phi:
+				// merging the address with others does not publish it: follow the merged value
+				walk(u)
+			case *ssa.BinOp:
+				// comparisons of the address do not publish it
+				if u.Op != token.EQL && u.Op != token.NEQ {
+					out = append(out, r)
+				}
+			case *ssa.If:
 			default:
 				out = append(out, r)
 			}
@@ -1302,18 +1311,23 @@ func (vc *FuncVC) mayPrecede(e, at ssa.Instruction) bool {
 
 // unescapedAllocs: heap objects allocated by this function whose address cannot
 // have reached any other code when instruction `at` executes.
-func (vc *FuncVC) unescapedAllocs(at ssa.Instruction) []*ssa.Alloc {
-	var out []*ssa.Alloc
+func (vc *FuncVC) unescapedAllocs(at ssa.Instruction) []ssa.Value {
+	var out []ssa.Value
 	for _, b := range vc.Fn.Blocks {
 		for _, in := range b.Instrs {
-			a, ok := in.(*ssa.Alloc)
-			if !ok || vc.localAlloc[a] {
+			var a ssa.Value
+			if al, ok := in.(*ssa.Alloc); ok && !vc.localAlloc[al] {
+				a = al
+			} else if v, ok := in.(ssa.Value); ok && vc.freshVals[v] {
+				a = v
+			}
+			if a == nil {
 				continue
 			}
 			if _, done := vc.vals[a]; !done {
 				continue
 			}
-			if !vc.mayPrecede(a, at) {
+			if !vc.mayPrecede(in, at) {
 				continue
 			}
 			esc := false
